@@ -209,7 +209,7 @@ func (o *OrderedCollection) Count() uint {
 // Append adds an element to an the receiver collection object.
 func (o *OrderedCollection) Append(it ...Item) error {
 	for _, ob := range it {
-		if o.OrderedItems.Contains(ob) {
+		if IsNil(ob) || o.OrderedItems.Contains(ob) {
 			continue
 		}
 		o.OrderedItems = append(o.OrderedItems, ob)
